@@ -194,7 +194,10 @@ impl TExec {
         }
         match expect {
             Exp3::Fail(why) => {
-                must_fail(ctx, &res, &["C12"], &format!("{}/accepted:{}", func, why), why);
+                // an allowance is the holder's standing authorisation: a delegated debit
+                // without a live, sufficient allowance is also a debit without authorisation
+                let tags: &[&'static str] = if why.ends_with("-allowance") { &["C12", "C07"] } else { &["C12"] };
+                must_fail(ctx, &res, tags, &format!("{}/accepted:{}", func, why), why);
             }
             Exp3::Either if res.out.is_err() => {
                 ctx.check(res.unchanged_full() && res.events.is_empty(), &["C12"], "refused-call-changed-state", || "refused call changed the ledger".into());
@@ -482,7 +485,7 @@ impl TExec {
                 let a = self.sim.query(&self.token.clone(), "allowance", (self.p[f].clone(), self.p[s].clone()).into_val(&env));
                 let av = a.val().and_then(|v| i128::try_from_val(&env, &v).ok());
                 let want = self.m.allow(f, s, seq);
-                if !ctx.check(av == Some(want), &["C12"], "invariant/allowance-differs", || {
+                if !ctx.check(av == Some(want), &["C12", "C07"], "invariant/allowance-differs", || {
                     format!("allowance(p{},p{}) = {:?} at ledger {}, model says {} (stored {:?})", f, s, av, seq, want, self.m.allowance.get(&(f, s)))
                 }) {
                     return;
